@@ -23,7 +23,7 @@ from .ioseq import type_of, _record_in_type
 from .pipeline import AnalysisBroken
 from .sym import I, ZERO
 
-NOINLINE = summ.InlineLib(only=lambda f: False)
+NOINLINE = summ.LOCAL_HELPERS
 SECRET_RECORDS = ("LweKey", "TLweKey", "TGswKey", "TFheGateBootstrappingSecretKeySet")
 PRODUCT_ACC = re.compile(r"^torusPolynomial(Add|Sub)MulR(FFT|Karatsuba)?$")     # result (+|-)= int_poly * torus_poly  (C09/C11)
 UNIFORM_POLY = ("torusPolynomialUniform",)                                     # every coefficient := fresh uniform (C07.R3)
@@ -49,6 +49,19 @@ def eval_term(t, env):
         return tot
     if k == "cast":
         return eval_term(t[2], env)
+    if k == "call" and t[1] == "$loop_end" and len(t[2]) >= 4:
+        # value of the induction variable after the counted loop (lo, hi, step, comparison)
+        lo, hi, st = eval_term(t[2][0], env), eval_term(t[2][1], env), eval_term(t[2][2], env)
+        cc = sym.const_value(t[2][3])
+        if lo is None or hi is None or not st or cc not in (0, 1, 2, 3) or (st > 0) != (cc in (0, 1)):
+            return None
+        if cc == 0:
+            return lo if lo >= hi else lo + -(-(hi - lo) // st) * st
+        if cc == 1:
+            return lo if lo > hi else lo + ((hi - lo) // st + 1) * st
+        if cc == 2:
+            return lo if lo <= hi else lo - -(-(lo - hi) // -st) * -st
+        return lo if lo < hi else lo - ((lo - hi) // -st + 1) * -st
     if k == "un":
         x = eval_term(t[2], env)
         if x is None:
@@ -221,7 +234,7 @@ class Flow:
         self.active.add(key)
         v = self.v
         ps, _ = summ.pieces(v, f, hooks=NOINLINE)
-        ps = summ.fold_accumulators(ps)
+        ps = summ.forward_stored_calls(summ.fold_accumulators(ps))
         roots = self.roots_of(f, ps)
         data_syms = {sym.sym(f.params[i]["n"]) for i in data_idx}
         T = lambda t: self.tainted(t, roots, data_syms)
